@@ -108,7 +108,8 @@ class Oracle(graph.Oracle):
             finally:
                 self.iters.append((len(lab.cost.log),
                                    tuple(tuple(float(v) for v in np.asarray(m, dtype=float).ravel()) for m in s.population),
-                                   tuple(self.kinds_seen)))
+                                   tuple(self.kinds_seen),
+                                   tuple(float(v) for v in np.asarray(s.bestSolution, dtype=float).ravel())))
         s._Step = probe
 
     def sig(self, clause, op):
@@ -217,13 +218,15 @@ def compare(lab_p, orc_p, lab_i, orc_i):
             break
     if t is None:
         return 'diverged', det + ' (although both runs made the same evaluations in the same iterations)'
-    # accepted only if, at every iteration boundary before that, each point stored by the in-place run is the point stored by
-    # the pure run or its constrained image, the reported member is the same, and at least one stored point differs
+    # accepted only if, at every iteration boundary before that, bestSolution is the same, each point stored by the in-place run is
+    # the point stored by the pure run or its constrained image, and at least one stored point differs
     differ = False
     for j in range(t):
         pp, pi, kinds = ip[j][1], ii[j][1], ip[j][2]
         if len(pp) != len(pi):
             return 'diverged', det
+        if ip[j][3] != ii[j][3]:
+            return 'diverged', det + ' (iteration %d: bestSolution %r / %r after identical evaluations)' % (j + 1, ip[j][3], ii[j][3])
         for m, (m_p, m_i) in enumerate(zip(pp, pi)):
             if m_p != m_i:
                 if not any(list(m_i) == image(k, m_p) for k in kinds):
@@ -255,7 +258,7 @@ def schedules(kind, variant, partner, N, KS, RKS, full):
         out.append((lab + '/steps', {}, pre + [['Step']] * (N - k)))
         for g, e in (LIMITS if (full or k == 2) else few):
             out.append((lab + '/solve_limit', {}, pre + [['SetEvaluationLimits', g, e, True], ['Solve']]))
-        if full or k:
+        if k == 2 or (full and k == 0):
             out.append((lab + '/solve_default', {'term': 'default'}, pre + [['Solve']]))
     # installed on a run that was already stopped by a limit (and finalised), then continued
     for g, e in few:
@@ -297,8 +300,8 @@ def run_one(cfg, ops, T, label):
     if orc.best_inf:
         T.hist('best_not_judged_nonfinite_energy', solver, orc.best_inf)
     if orc.midrun_best[0] or orc.midrun_best[1]:
-        T.hist('evidence_only_best_after_midrun_installation', 'satisfies', orc.midrun_best[0])
-        T.hist('evidence_only_best_after_midrun_installation', 'violates(not judged: not in force from the first iteration)', orc.midrun_best[1])
+        T.hist('evidence_only_best_after_midrun_installation', '%s: satisfies the new constraint' % solver, orc.midrun_best[0])
+        T.hist('evidence_only_best_after_midrun_installation', '%s: violates it (not judged: not in force from the first iteration)' % solver, orc.midrun_best[1])
     live = getattr(lab, 'live_cons', [])
     changed = sum(c.changed for c in live[-1:])     # the constraint of interest is the last installed
     aliased = sum(c.aliased for c in live[-1:])
@@ -332,6 +335,11 @@ def shard(item):
             cfg_i = dict(base_cfg(spec), **over_i)
             lab_p, orc_p = run_one(cfg_p, ops_p, T, label)
             lab_i, orc_i = run_one(cfg_i, ops_i, T, label)
+            if label in ('op_after_2/solve_limit', 'configured/steps', 'replace_after_2/steps') and len(T.samples) < 3 \
+                    and label not in [x.get('schedule') for x in T.samples]:
+                T.sample({'schedule': label, 'cfg': graph._short(dict(cfg_i, solver=None)), 'solver': spec['solver'], 'ops': compact(ops_i),
+                          'cost_calls_judged': orc_i.calls_judged, 'reports_judged': orc_i.best_judged,
+                          'final_best': list(orc_i.trace[-1][2]), 'final_bestEnergy': orc_i.trace[-1][3]})
             verdict, det = compare(lab_p, orc_p, lab_i, orc_i)
             T.count('variant_pairs_compared')
             if verdict == 'diverged':
@@ -345,43 +353,46 @@ def shard(item):
                 T.hist('differential', 'diverged after the in-place run stored constrained images of non-reported points (not judged) [%s]' % spec['solver'])
             else:
                 T.hist('differential', 'identical')
-    s0 = specs[0]
-    T.sample({'cfg': dict(base_cfg(s0), constraint=s0['kind'] + '/pure'), 'ops': compact([['Step']] * 2 + [['SetConstraints', s0['kind'] + '/pure'], ['SetEvaluationLimits', None, 3, True], ['Solve']]),
-              'also': 'the same with %s/inplace, all installation times and stops' % s0['kind']})
     return T
 
 
 # ------------------------------------------------------------------ enumeration
 def specs_for(ctx):
+    """the configuration product (one entry = a pure/in-place pair of configurations)"""
     th = ctx.thorough
     out = []
-    kinds2 = ['pin', 'clamp', 'round', 'tie', 'symbolic'] + (['pin1'] if th else [])
+    TN = (True, None)     # bounds imposed by the symbolic solver: by far the most expensive mode
     if th:
-        boxmodes = [(None, None, None)] + [(b, t, c) for b in ('unit', 'shift', 'degen', 'onesided') for (t, c) in MODES]
-        costs = ['sphere', 'rosen', 'steps', 'infwall']
-        starts = [[0.8, -0.4], [3.0, -2.0], [2.0, 0.5]]
+        kinds2 = ['pin', 'clamp', 'round', 'tie', 'symbolic', 'pin1']
+        boxmodes = ([(None, None, None)] + [(b, t, c) for b in ('unit', 'shift') for (t, c) in MODES]
+                    + [('degen', None, None), ('degen', True, True), ('onesided', None, None), ('onesided', None, True)])
+        coststarts = [('sphere', [0.8, -0.4]), ('sphere', [3.0, -2.0]), ('sphere', [2.0, 0.5]),
+                      ('rosen', [0.8, -0.4]), ('rosen', [3.0, -2.0]), ('steps', [0.8, -0.4]), ('infwall', [2.0, 0.5])]
     else:
+        kinds2 = ['pin', 'clamp', 'round', 'tie', 'symbolic']
         boxmodes = [(None, None, None)] + [('unit', t, c) for (t, c) in MODES] + [('shift', None, None), ('shift', None, True)]
-        costs = ['sphere', 'rosen']
-        starts = [[0.8, -0.4], [3.0, -2.0]]
+        coststarts = [('sphere', [0.8, -0.4]), ('sphere', [3.0, -2.0]), ('rosen', [0.8, -0.4]), ('rosen', [3.0, -2.0])]
     for solver in solverlab.SOLVERS:
-        seeds = (ctx.seed, ctx.seed + 1) if (th and solver.startswith('DE')) else (ctx.seed,)
         for kind in kinds2:
             for (box, t, c) in boxmodes:
                 if not compat(kind, box, 2):
                     continue
-                for cost in costs:
-                    if not th and cost != 'rosen' and (box == 'shift' or (t is True and c is None)):
-                        continue   # quick tier: the shifted box and the symbolic-bounds mode (T,N) with one cost; thorough has the product
-                    for x0 in starts:
-                        for seed in seeds:
-                            out.append({'solver': solver, 'dim': 2, 'cost': cost, 'x0': x0, 'box': box, 'tight': t, 'clip': c,
-                                        'kind': kind, 'seed': seed})
-    # other dimensions: a reduced product (no symbolic constraint in one dimension)
+                for cost, x0 in coststarts:
+                    if not th and cost != 'rosen' and (box == 'shift' or (t, c) == TN):
+                        continue   # quick tier: the shifted box and the (T,N) mode with one cost (thorough: the product)
+                    if not th and (t, c) == TN and x0 != [3.0, -2.0]:
+                        continue   # quick tier: the (T,N) mode from the start outside the box only
+                    seeds = [ctx.seed]
+                    if th and solver.startswith('DE') and box in (None, 'unit') and (t, c) in ((None, None), (True, True)):
+                        seeds.append(ctx.seed + 1)
+                    for seed in seeds:
+                        out.append({'solver': solver, 'dim': 2, 'cost': cost, 'x0': x0, 'box': box, 'tight': t, 'clip': c,
+                                    'kind': kind, 'seed': seed})
+    # other dimensions: a reduced product (the symbolic constraint needs two coordinates)
     for dim in ((1, 3) if th else (1,)):
         for solver in solverlab.SOLVERS:
             for kind in ['pin', 'clamp', 'round', 'tie'] + (['symbolic', 'pin1'] if dim > 1 else []):
-                for (box, t, c) in [(None, None, None), ('unit', None, None), ('unit', True, True)] + ([('unit', True, None), ('unit', None, True)] if th else []):
+                for (box, t, c) in [(None, None, None), ('unit', None, None), ('unit', True, True)] + ([('unit', None, True)] if th else []):
                     if not compat(kind, box, dim):
                         continue
                     for cost in (['sphere', 'steps'] if th else ['sphere']):
